@@ -18,14 +18,14 @@ META = {
     "trusted": "reference state machine in this file (rules R1-R6 of DESIGN.md section 4/C08); simulated transport log",
     "rule": "case = (history, peer mode); distinct by that; non-trivial when the history contains at least one closing action (close/send_close/shutdown/server close/EOF) followed by another step",
     "exhaustive": {"quick": True, "thorough": True},
-    "exhaustive_space": {"quick": "all 13^k histories, k<=4, peer mode alternating (both modes for k<=3)", "thorough": "all 13^k histories, k<=5, both peer modes"},
+    "exhaustive_space": {"quick": "all 14^k histories, k<=4, peer mode alternating (both modes for k<=3)", "thorough": "all 14^k histories, k<=5, both peer modes"},
     "bounds": "single-threaded; sends between an explicit send_close() and release are not judged; reset (ECONNRESET) only recorded",
     "required_counters": ["post_release_calls_checked", "close_calls_checked", "own_close_frames_seen"],
     "assumptions": [],
 }
 
 CLIENT = ["send", "recv", "ping", "close", "close_code", "close_bad", "send_close", "shutdown"]
-SERVER = ["s_text", "s_ping", "s_close_body", "s_close", "s_eof"]
+SERVER = ["s_text", "s_ping", "s_close_body", "s_close", "s_eof", "s_reset"]
 ALPHA = CLIENT + SERVER
 CLOSING = {"close", "close_code", "send_close", "shutdown", "s_close_body", "s_close", "s_eof"}
 
@@ -103,6 +103,7 @@ def history_case(res, W, rng, hist, mode, exhaustive):
         "explicit_close": 0,
         "server_close_seen": False,
         "eof_queued": False,
+        "reset": False,
     }
     nontrivial = any(s in CLOSING for s in hist[:-1])
     res.case((hist, mode), nontrivial=nontrivial)
@@ -124,6 +125,11 @@ def history_case(res, W, rng, hist, mode, exhaustive):
                 conn.deliver(R.encode(R.CLOSE, b"\x03\xe9going"))
             elif sym == "s_close":
                 conn.deliver(R.encode(R.CLOSE, b""))
+            elif sym == "s_reset":
+                # outside the property's quantifier for send/recv (only recorded), but close()/shutdown() must still release the transport
+                conn.peer_reset()
+                st["eof_queued"] = True
+                st["reset"] = True
             else:
                 conn.peer_close()
                 st["eof_queued"] = True
@@ -133,7 +139,8 @@ def history_case(res, W, rng, hist, mode, exhaustive):
         after_close_before = len(conn.calls_after_close)
         sent_before = len(hs.client_stream)
         t0 = S.now
-        open_state = (not st["released"] and st["own_close"] == 0 and st["explicit_close"] == 0 and not st["server_close_seen"])
+        # after an injected reset only the release rules (R1/R2) are judged: every write fails, so encoding/refusal clauses are moot
+        open_state = (not st["released"] and st["own_close"] == 0 and st["explicit_close"] == 0 and not st["server_close_seen"] and not st["reset"])
         was_connected = w.connected
         exc = None
         ret = None
@@ -195,6 +202,9 @@ def history_case(res, W, rng, hist, mode, exhaustive):
                     bad("close-encoding", i, f"send_close payload {closes[0].payload!r}")
             elif not isinstance(exc, (W.WebSocketException, OSError)):
                 bad("send_close-raised", i, f"{ename}: {exc}", got=ename)
+            else:
+                # the transport failed under send_close(): the closing handshake was attempted, the state is no longer "open"
+                st["explicit_close"] += 1
 
         # ---- R5: close(code, reason) ----
         if sym in ("close", "close_code"):
@@ -239,6 +249,8 @@ def history_case(res, W, rng, hist, mode, exhaustive):
                 return
             if w.connected:
                 bad("connected-after-release", i, f"connected flag still True after {sym}")
+        elif exc is not None and st["reset"] and isinstance(exc, OSError):
+            res.count("reset_errors_recorded")
         elif exc is not None and not isinstance(exc, (W.WebSocketException, OSError, ValueError)):
             bad("internal-exception", i, f"{ename}: {exc}", got=ename)
     res.sample(case, cap=3) if nontrivial else None
